@@ -140,6 +140,7 @@ class ZoneFn:
         self._desc = {}
         self.global_facts = []      # (def_block or None, t1, t2)  t1 <= t2
         self.edge_facts = {}        # (switch_block, succ) -> [(t1,t2)]
+        self.edge_mods = {}         # (switch_block, succ) -> [(sym, c, m)]  meaning (sym + c) % m == 0 on that edge
         self.fresh = 0
         self.sym_bound = {}
         self.sym_le = {}       # opaque symbol -> a term it never exceeds (quotients, differences)
@@ -830,9 +831,33 @@ class ZoneFn:
         if key in self._term:
             return self._term[key]
         res = None
+        # `x.checked_sub(1).and_then(|y| y.checked_sub(L))`: a checked operation on the payload of another one, inside a closure
+        chained = None
+        if variant and variant[0] in ('Some', 'Continue', 'Ok') and cal in ('std::option::Option::<T>::and_then',) and len(t['args']) == 2 \
+                and t['args'][0]['k'] in ('copy', 'move') and not t['args'][0]['pl'].get('p') and t['args'][1]['k'] in ('copy', 'move'):
+            ci = self.fd._closure_info(t['args'][1]['pl']['l'])
+            inner = self._payload_term({'l': t['args'][0]['pl']['l'], 'p': [{'k': 'downcast', 'v': 1, 'n': 'Some'}, {'k': 'field', 'n': '0', 'adt': 'std::option::Option::Some'}]})
+            if ci is not None and inner is not None and ci[0] in self.za.prog.bodies:
+                czf = self.za.zf(ci[0])
+                d0 = czf.single_def(0)
+                if d0 and d0[0] == 'call' and (d0[2].get('callee') or '').endswith(('::checked_sub', '::checked_add')) and len(d0[2]['args']) == 2:
+                    def tr(o):
+                        tt = czf.term_op(o)
+                        if tt is None:
+                            return None
+                        if tt[0] == 'p2':
+                            return (inner[0], inner[1] + tt[1])
+                        if tt[0] is None:
+                            return tt
+                        if tt[0].startswith('cap') and tt[0][3:].isdigit() and int(tt[0][3:]) < len(ci[1]):
+                            return tadd(self.term_op(ci[1][int(tt[0][3:])]), tt[1])
+                        return None
+                    chained = ((d0[2].get('callee') or '').split('::')[-1], tr(d0[2]['args'][0]), tr(d0[2]['args'][1]))
+        if chained is not None:
+            cal = '::' + chained[0]
         if variant and variant[0] in ('Some', 'Continue', 'Ok'):
             if cal.endswith('::checked_sub'):
-                a, b = self.term_op(t['args'][0]), self.term_op(t['args'][1])
+                a, b = (chained[1], chained[2]) if chained is not None else (self.term_op(t['args'][0]), self.term_op(t['args'][1]))
                 res = tsub(a, b)
                 if a is not None and b is not None:
                     self.global_facts.append((('payload', l), b, a))
@@ -842,7 +867,7 @@ class ZoneFn:
                         self.global_facts.append((('payload', l), res, a))
                         self.sym_le[res[0]] = a
             elif cal.endswith('::checked_add'):
-                a, b = self.term_op(t['args'][0]), self.term_op(t['args'][1])
+                a, b = (chained[1], chained[2]) if chained is not None else (self.term_op(t['args'][0]), self.term_op(t['args'][1]))
                 if a is not None and b is not None and (a[0] is None or b[0] is None):
                     res = (a[0] or b[0], a[1] + b[1])
                 else:
@@ -1138,7 +1163,12 @@ class ZoneFn:
             t = blk['term']
             if t['k'] != 'switch' or t['discr']['k'] not in ('copy', 'move'):
                 continue
+            self._pending_mods = []
             post = self._post_facts_of_switch(t)
+            if self._pending_mods:
+                tgt0 = [b for v, b in t['targets'] if v == '0']
+                if tgt0:
+                    self.edge_mods.setdefault((bi, tgt0[0]), []).extend(self._pending_mods)
             if post:
                 tgt0 = [b for v, b in t['targets'] if v == '0']
                 if tgt0:
@@ -1157,6 +1187,11 @@ class ZoneFn:
             if len(t['targets']) != 1 or not zero_t or zero_t[0] == t['otherwise']:
                 continue
             f_edge, t_edge = zero_t[0], t['otherwise']
+            mt, mf = self._mod_pair(t['discr']['pl'], 0)
+            if mt:
+                self.edge_mods.setdefault((bi, t_edge), []).extend(mt)
+            if mf:
+                self.edge_mods.setdefault((bi, f_edge), []).extend(mf)
             cmpv = self._trace_bool(t['discr']['pl'], 0)
             if cmpv is None:
                 continue
@@ -1254,6 +1289,7 @@ class ZoneFn:
         for k in summ.get('post_true', []):
             aargs = cargs if cargs is not None else call['args']
             if k - 1 < len(aargs) and aargs[k - 1]['k'] in ('copy', 'move') and not aargs[k - 1]['pl'].get('p'):
+                self._pending_mods = getattr(self, '_pending_mods', []) + self._mod_pair(aargs[k - 1]['pl'], 0)[0]
                 cv = self._trace_bool(aargs[k - 1]['pl'], 0)
                 if cv is None:
                     continue
@@ -1331,7 +1367,7 @@ class ZoneFn:
             return None
         d = self.single_def(pl['l'])
         if d is None:
-            return None
+            return self._trace_short_circuit(pl['l'], depth)
         kind, bi, x = d
         if kind == 'assign':
             rv = x['rv']
@@ -1394,6 +1430,154 @@ class ZoneFn:
                             return ('FACTS', tf, [], False)
                         return ('FACTS', [], ff, False)
         return None
+
+    def _mod_pair(self, pl, depth=0):
+        """(congruences that hold when the boolean is true, when it is false); a congruence is (sym, c, m): (sym + c) % m == 0"""
+        if depth > 8 or pl.get('p'):
+            return ([], [])
+        l = pl['l']
+        d = self.single_def(l)
+        if d is None:
+            sc = self._short_circuit_parts(l)
+            if sc is None:
+                return ([], [])
+            cval, first_pl, other_rv, other_on_true = sc
+            f = self._mod_pair(first_pl, depth + 1)
+            if other_rv['k'] == 'use' and other_rv['op']['k'] in ('copy', 'move'):
+                o = self._mod_pair(other_rv['op']['pl'], depth + 1)
+            else:
+                o = self._mod_of_rvalue(other_rv, depth)
+            if not cval:        # first && second: true => both
+                return ((f[0] if other_on_true else f[1]) + o[0], [])
+            return ([], (f[1] if not other_on_true else f[0]) + o[1])
+        kind, bi, x = d
+        if kind != 'assign':
+            return ([], [])
+        rv = x['rv']
+        if rv['k'] == 'use' and rv['op']['k'] in ('copy', 'move'):
+            return self._mod_pair(rv['op']['pl'], depth + 1)
+        if rv['k'] == 'unop' and rv['op'] == 'Not' and rv['a']['k'] in ('copy', 'move'):
+            t, f = self._mod_pair(rv['a']['pl'], depth + 1)
+            return (f, t)
+        return self._mod_of_rvalue(rv, depth)
+
+    def _mod_of_rvalue(self, rv, depth):
+        if rv['k'] != 'binop' or rv['op'] not in ('Eq', 'Ne'):
+            return ([], [])
+        a, b = rv['a'], rv['b']
+        if b['k'] != 'const' or b.get('int') != '0' or a['k'] not in ('copy', 'move') or a['pl'].get('p'):
+            return ([], [])
+        d2 = self.single_def(a['pl']['l'])
+        if not d2 or d2[0] != 'assign' or d2[2]['rv']['k'] != 'binop' or d2[2]['rv']['op'] != 'Rem':
+            return ([], [])
+        xx, m = self.term_op(d2[2]['rv']['a']), self.term_op(d2[2]['rv']['b'])
+        if xx is None or m is None or m[0] is not None or xx[0] is None or m[1] < 1:
+            return ([], [])
+        c = [(xx[0], xx[1], m[1])]
+        return (c, []) if rv['op'] == 'Eq' else ([], c)
+
+    def _short_circuit_parts(self, l):
+        """(constant value, place of the first condition, rvalue of the second, second evaluated on the true edge of the first) for `a && b` / `a || b`"""
+        body = self.body
+        if body.local_ty(l) != 'bool' or self.fd.is_param(l):
+            return None
+        ds = [d for d in self.fd.defs.get(l, []) if not d[2].get('dst', {}).get('p')]
+        if len(ds) != 2 or not all(d[0] == 'assign' for d in ds):
+            return None
+        const = [d for d in ds if d[2]['rv']['k'] == 'use' and d[2]['rv']['op']['k'] == 'const' and d[2]['rv']['op'].get('int') in ('0', '1')]
+        other = [d for d in ds if d not in const]
+        if len(const) != 1 or len(other) != 1:
+            return None
+        cval = const[0][2]['rv']['op']['int'] == '1'
+        cb, ob = const[0][1], other[0][1]
+        for sb, blk in enumerate(body.blocks):
+            t = blk['term']
+            if blk['cleanup'] or t['k'] != 'switch' or t['discr']['k'] not in ('copy', 'move') or t['discr']['pl'].get('p'):
+                continue
+            succ = set(body.succ[sb])
+            sc = [x for x in succ if x == cb or (body.dominates(x, cb) and not body.dominates(x, ob))]
+            so = [x for x in succ if x == ob or (body.dominates(x, ob) and not body.dominates(x, cb))]
+            if len(sc) == 1 and len(so) == 1 and sc[0] != so[0] and body.dominates(sb, cb) and body.dominates(sb, ob):
+                zero_t = [x for v, x in t['targets'] if v == '0']
+                return (cval, t['discr']['pl'], other[0][2]['rv'], bool(zero_t) and so[0] != zero_t[0])
+        return None
+
+    def _facts_pair(self, r):
+        """(facts when true, facts when false) of a traced boolean"""
+        if r is None:
+            return None
+        if r[0] == 'FACTS':
+            return (list(r[1]), list(r[2]))
+        op, a, b, neg = r
+        tf, ff = self._cmp_facts(op, a, b)
+        return (ff, tf) if neg else (tf, ff)
+
+    def _trace_short_circuit(self, l, depth):
+        """`a && b` / `a || b` as MIR builds them: a bool assigned a constant on one edge of the switch on `a` and `b` on the other.
+        True `&&` means both hold; false `||` means neither does."""
+        body = self.body
+        if body.local_ty(l) != 'bool' or self.fd.is_param(l):
+            return None
+        ds = [d for d in self.fd.defs.get(l, []) if not d[2].get('dst', {}).get('p')]
+        if len(ds) != 2 or not all(d[0] == 'assign' for d in ds):
+            return None
+        const = [d for d in ds if d[2]['rv']['k'] == 'use' and d[2]['rv']['op']['k'] == 'const' and d[2]['rv']['op'].get('int') in ('0', '1')]
+        other = [d for d in ds if d not in const]
+        if len(const) != 1 or len(other) != 1:
+            return None
+        cval = const[0][2]['rv']['op']['int'] == '1'
+        cb, ob = const[0][1], other[0][1]
+        # the switch that separates the two definitions
+        sw = None
+        for sb, blk in enumerate(body.blocks):
+            t = blk['term']
+            if blk['cleanup'] or t['k'] != 'switch' or t['discr']['k'] not in ('copy', 'move') or t['discr']['pl'].get('p'):
+                continue
+            succ = set(body.succ[sb])
+            def leads(x, tgt):
+                for _ in range(3):
+                    if x == tgt:
+                        return True
+                    if len(body.succ[x]) == 1 and not body.blocks[x]['stmts']:
+                        x = body.succ[x][0]
+                    else:
+                        return False
+                return x == tgt
+            sc = [x for x in succ if leads(x, cb) or (body.dominates(x, cb) and not body.dominates(x, ob))]
+            so = [x for x in succ if leads(x, ob) or (body.dominates(x, ob) and not body.dominates(x, cb))]
+            if len(sc) == 1 and len(so) == 1 and sc[0] != so[0] and body.dominates(sb, cb) and body.dominates(sb, ob):
+                sw = (sb, t, sc[0], so[0])
+        if sw is None:
+            return None
+        sb, t, edge_c, edge_o = sw
+        first = self._facts_pair(self._trace_bool(t['discr']['pl'], depth + 1))
+        rv = other[0][2]['rv']
+        second = None
+        if rv['k'] == 'use' and rv['op']['k'] in ('copy', 'move'):
+            second = self._facts_pair(self._trace_bool(rv['op']['pl'], depth + 1))
+        elif rv['k'] == 'binop' and rv['op'] in ('Eq', 'Ne', 'Lt', 'Le', 'Gt', 'Ge'):
+            a, b = self.term_op(rv['a']), self.term_op(rv['b'])
+            if a is not None and b is not None:
+                second = self._cmp_facts(rv['op'], a, b)
+        elif rv['k'] == 'unop' and rv['op'] == 'Not' and rv['a']['k'] in ('copy', 'move'):
+            sp = self._facts_pair(self._trace_bool(rv['a']['pl'], depth + 1))
+            second = (sp[1], sp[0]) if sp else None
+        if first is None and second is None:
+            return None
+        first = first or ([], [])
+        second = second or ([], [])
+        zero_t = [x for v, x in t['targets'] if v == '0']
+        # was the `other` definition reached on the true edge of the first condition?
+        other_on_true = bool(zero_t) and edge_o != zero_t[0]
+        if not cval:
+            # constant false: `first && second` (other on the true edge) - value true => first and second hold
+            if other_on_true:
+                return ('FACTS', first[0] + second[0], [], False)
+            return ('FACTS', first[1] + second[0], [], False)
+        # constant true: `first || second` (other on the false edge) - value false => neither holds
+        if not other_on_true:
+            return ('FACTS', [], first[1] + second[1], False)
+        return ('FACTS', [], first[0] + second[1], False)
 
     def _cmp_facts(self, op, a, b):
         """facts (as lists of (t1,t2) meaning t1<=t2) on the true edge and on the false edge."""
